@@ -378,6 +378,10 @@ func runVGenesisCase(ta *TestApp, seed uint64, idx int, rep *Report, profile str
 		for _, t := range vts.VestingTypes {
 			expected = append(expected, bi(nm(t.Name)), bi(int64(t.LockupPeriod)), bi(int64(t.VestingPeriod)), t.Free.BigInt())
 		}
+		// the vesting types as ExportGenesis lists them (periods in the largest unit that divides them)
+		for _, t := range cfevesting.ExportGenesis(ctx, k).VestingTypes {
+			expected = append(expected, bi(nm(t.Name)), bi(unitCode(t.LockupPeriodUnit)), bi(t.LockupPeriod), bi(unitCode(t.VestingPeriodUnit)), bi(t.VestingPeriod), t.Free.BigInt())
+		}
 		// ---- predicates on the implementation alone
 		if valid {
 			modBal := app.BankKeeper.GetBalance(ctx, app.AccountKeeper.GetModuleAddress(vesttypes.ModuleName), balDenom).Amount
